@@ -750,7 +750,7 @@ def run(ctx):
                 and a.split('._native.bv_decide.ax_')[0] in ('Librfn.Gen.Mem.load64_store64_sep', 'Librfn.C09.Tie.sep_comm', 'Librfn.C09.Tie.sep_self8'))
     def allow2(t, a):          # the comparator instance (C09TieSched) rests on the C02 lemma about the regenerated duetime_cmp
         return mem_allow(t, a) or (t.startswith('Librfn.C09.TieSched.') and '._native.bv_decide.ax_' in a
-                                   and (a.startswith('Librfn.C02.Tie.duetime_cmp_generated.') or a.startswith('Librfn.C09.Tie.') or a.startswith('Librfn.Gen.Mem.')))
+                                   and (a.startswith('Librfn.C02.Tie.duetime_cmp_generated') or a.startswith('Librfn.C09.Tie.') or a.startswith('Librfn.Gen.Mem.')))
     tie_common.prove(ctx, ['ListSeq', 'FibreSeq'], ['Librfn.Props.C09'], REQUIRED, 'Librfn.Props.C09Tie', 'Librfn.C09.Tie', extra_allow=allow2,
                      dependents=[('Librfn.Props.C09TieSched', 'Librfn.C09.TieSched')], sig_only={'FibreSeq': ['duetime_cmp']})
     exe = harness(ctx)
